@@ -455,6 +455,18 @@ pub fn gen_mesh(rng: &mut Rng, o: &GenOpts, start_index: usize) -> GMesh {
         decl.push(GElem { stream: 0, offset: 0, ty: 2, usage: 0, uidx: 0 });
         used[0] = used[0].max(12);
     }
+    // canonical models (C07): now and then a FULL declaration (all 16 element slots, end marker in
+    // the 17th) made of exact repetitions of the elements chosen above — every repetition reads and
+    // writes the same bytes, so the model stays canonical for the writer
+    if o.canonical && rng.chance(1, 12) {
+        let base = decl.clone();
+        let mut i = 0;
+        while decl.len() < 16 {
+            let e = &base[i % base.len()];
+            decl.push(GElem { stream: e.stream, offset: e.offset, ty: e.ty, usage: e.usage, uidx: e.uidx });
+            i += 1;
+        }
+    }
     let mut streams = Vec::new();
     for s in 0..nstreams {
         let slack = if rng.chance(1, 3) { rng.below(9) as usize } else { 0 };
